@@ -21,35 +21,41 @@ CHECK_DEADLOCK FALSE
 WATER = np.array([[0, 0, 0], [1, 0, 0], [0, 1, 0]])
 
 
-def _build(case, seed):
+def _build(case, seed, top=None):
     import mdtraj as md
     rs = np.random.RandomState(seed)
     cell = np.array(case["cell"], dtype=float)
-    top = md.Topology()
+    top = md.Topology() if top is None else top
     ch = top.add_chain()
-    res = top.add_residue("LIG", ch)
-    atoms = [top.add_atom("C%d" % i, md.element.carbon, res) for i in range(4)]
     rev = bool(case["walk"]) and case["walk"][0][0] > case["walk"][0][1]
-    for b in case["bonds"]:
-        i, j = b[0] - 1, b[1] - 1
-        if (seed + i + j) % 2 or rev:
-            i, j = j, i
-        top.add_bond(atoms[i], atoms[j])
-    pos = [np.array(p, dtype=float) for p in case["pos0"]]
-    # two scrambled waters so that image_molecules has other molecules to place
-    for w in range(2):
-        r = top.add_residue("HOH", ch)
-        wa = [top.add_atom(n, md.element.oxygen if n == "O" else md.element.hydrogen, r) for n in ("O", "H1", "H2")]
-        top.add_bond(wa[0], wa[1]); top.add_bond(wa[0], wa[2])
-        org = np.floor(rs.rand(3) @ cell) + rs.randint(-2, 3, size=3) @ cell
-        for k in range(3):
-            pos.append(org + WATER[k] + rs.randint(-1, 2, size=3) @ cell)
+    where = seed % 3          # the ligand comes before, between or after the two waters: atom indices of the molecules vary
+    pos = []
+    off = 0
+    for slot in range(3):
+        if slot == where:
+            off = len(pos)
+            res = top.add_residue("LIG", ch)
+            atoms = [top.add_atom("C%d" % i, md.element.carbon, res) for i in range(4)]
+            for b in case["bonds"]:
+                i, j = b[0] - 1, b[1] - 1
+                if (seed + i + j) % 2 or rev:
+                    i, j = j, i
+                top.add_bond(atoms[i], atoms[j])
+            pos += [np.array(p, dtype=float) for p in case["pos0"]]
+        if slot < 2:
+            # two scrambled waters so that image_molecules has other molecules to place
+            r = top.add_residue("HOH", ch)
+            wa = [top.add_atom(n, md.element.oxygen if n == "O" else md.element.hydrogen, r) for n in ("O", "H1", "H2")]
+            top.add_bond(wa[0], wa[1]); top.add_bond(wa[0], wa[2])
+            org = np.floor(rs.rand(3) @ cell) + rs.randint(-2, 3, size=3) @ cell
+            for k in range(3):
+                pos.append(org + WATER[k] + rs.randint(-1, 2, size=3) @ cell)
     pos = np.array(pos)
     nfr = 2
     xyz = np.stack([pos, pos + (rs.randint(-1, 2, size=(len(pos), 3)) @ cell)]) * G
     t = md.Trajectory(xyz.astype(np.float32), top, time=np.array([3.0, 4.5]))
     t.unitcell_vectors = np.stack([cell * G] * nfr).astype(np.float32)
-    return t, cell
+    return t, cell, off, where
 
 
 def _lattice_coefs(delta_units, cell):
@@ -58,15 +64,15 @@ def _lattice_coefs(delta_units, cell):
 
 def _replay(task):
     import mdtraj as md
-    case, seed = task
-    t, cell = _build(case, seed)
+    case, seed = task[0], task[1]
+    t, cell, off, where = _build(case, seed, task[2] if len(task) > 2 else None)
     bonds = np.array([[b[0].index, b[1].index] for b in t.topology.bonds])
     x0 = t.xyz.copy(); L0 = t.unitcell_lengths.copy(); A0 = t.unitcell_angles.copy(); T0 = t.time.copy()
     allpairs = np.array([(i, j) for i in range(t.n_atoms) for j in range(i + 1, t.n_atoms)])
     d_before = md.compute_distances(t, allpairs, periodic=True)
     mind = {}
     for b, m in zip(case["bonds"], case["mind2"]):
-        mind[(b[0] - 1, b[1] - 1)] = m
+        mind[(b[0] - 1 + off, b[1] - 1 + off)] = m
     # ---------------- make_molecules_whole ------------------------------------------------------------
     try:
         w = t.make_molecules_whole(inplace=False)
@@ -99,7 +105,7 @@ def _replay(task):
         return "make_molecules_whole(inplace=True) differs from the copy variant"
     # ---------------- image_molecules ----------------------------------------------------------------
     mols = t.topology.find_molecules()
-    lig = [set(list(t.topology.residue(0).atoms))]
+    lig = [set(list(t.topology.residue(where).atoms))]
     variants = [(True, lig), (False, lig)]
     try:
         t.topology.guess_anchor_molecules()
@@ -137,6 +143,35 @@ def _replay(task):
     return None
 
 
+def _history(tasks):
+    """a history of systems re-imaged one after the other in one process, each Topology allocated where an earlier, freed one
+    lived (same address, same atom and bond counts, different connectivity): the result must depend on the argument only"""
+    import gc
+    import mdtraj as md
+    seen = set()
+    out = []
+    reused = 0
+    for k, (case, seed) in enumerate(tasks):
+        top = None
+        hold = []
+        for _ in range(64):
+            cand = md.Topology()
+            if id(cand) in seen:
+                top = cand; reused += 1
+                break
+            hold.append(cand)
+        if top is None:
+            top = hold.pop()
+        del hold
+        seen.add(id(top))
+        p = _replay((case, seed, top))
+        if p:
+            out.append((k, p))
+        del top
+        gc.collect()
+    return out, reused
+
+
 def run(ctx):
     ns = 3 if not ctx.thorough else 4
     # vacuity guard: the walk over bonds sorted by first atom (what the pinned code handed to make_whole) violates BondsWhole
@@ -158,6 +193,28 @@ def run(ctx):
         tasks = [(c, ctx.seed + i) for i, c in enumerate(cases)]
     res = pool.run_tasks(_replay, tasks, workers=16, timeout=120, batch=16)
     nfail = 0
+    # histories: groups of cases with the same number of bonds (hence equal atom and bond counts) but different connectivity
+    hist = []
+    reused = 0
+    if not ctx.replay:
+        by = {}
+        for tk in tasks:
+            by.setdefault(len(tk[0]["bonds"]), []).append(tk)
+        for grp in by.values():
+            ctx.rng.shuffle(grp)
+            hist += [grp[i:i + 12] for i in range(0, min(len(grp), 1200 if not ctx.thorough else len(grp)), 12)]
+        for h, (st, val) in zip(hist, pool.run_tasks(_history, hist, workers=16, timeout=600, batch=1)):
+            if st != "ok":
+                nfail += 1
+                ctx.discrepancy(None, "history failed: %s %s" % (st, str(val)[:200]), dict(task=[h[0][0], h[0][1]]), cls="history " + st)
+                continue
+            reused += val[1]
+            for k, p in val[0]:
+                nfail += 1
+                ctx.discrepancy(None, "after re-imaging %d other systems in the same process: cell=%s pos0=%s bonds=%s: %s" % (k, h[k][0]["cell"], h[k][0]["pos0"], h[k][0]["bonds"], p),
+                                dict(task=[h[k][0], h[k][1]], history=[x[0]["bonds"] for x in h[:k]], problem=p), cls="history: " + p.split("(bond")[0][:90])
+        if hist and reused < len(hist):
+            ctx.machinery_failure("history replay: topology addresses were reused only %d times in %d histories" % (reused, len(hist)))
     for tk, (st, val) in zip(tasks, res):
         if st == "ok" and val is None:
             continue
@@ -165,8 +222,9 @@ def run(ctx):
         msg = val if st == "ok" else "%s: %s" % (st, str(val)[:200])
         ctx.discrepancy(None, "cell=%s pos0=%s bonds(sorted)=%s: %s" % (tk[0]["cell"], tk[0]["pos0"], tk[0]["walk"], msg), dict(task=[tk[0], tk[1]], problem=msg),
                         cls=msg.split("(bond")[0][:100])
-    cov = dict(traces_validated_against_impl=len(tasks), replays_failing=nfail, cases_emitted=len(r.tr), samples=[t[0] for t in tasks[:2]],
+    cov = dict(traces_validated_against_impl=len(tasks) + sum(len(h) for h in hist), histories=len(hist), topology_address_reuses=reused, replays_failing=nfail, cases_emitted=len(r.tr), samples=[t[0] for t in tasks[:2]],
                explanation="TLC walks make_whole's bond loop step by step for every (cell, molecule template, atom labelling, bond orientation, per-atom lattice scramble): "
                            "LatticeMoves/BondsWhole/ObservablesKept hold for every placement order and fail for the sorted-by-first-atom order (guard); each case is replayed "
-                           "through make_molecules_whole and image_molecules (inplace, make_whole, explicit/guessed anchors) with two scrambled waters added")
+                           "through make_molecules_whole and image_molecules (inplace, make_whole, explicit/guessed anchors) with two scrambled waters added; "
+                           "histories of 12 systems with equal counts and different connectivity are re-imaged in one process with topology addresses deliberately reused")
     return ctx.finish(cov, "model_checking", ["4-atom molecules (chain, star, ring) far shorter than half the cell; 4 cells (orthorhombic, hexagonal-like, triclinic, unreduced); lattice step 0.125 nm"])
